@@ -83,18 +83,31 @@ namespace {
 
     struct Yield { int key; int64_t id; uint64_t t; };
 
+    // workload shape of one variant
+    struct Profile {
+        unsigned kmin = 8, kmax = 16;   // key space
+        unsigned umin = 1, umax = 3;    // updater threads
+        unsigned eat_den = 12;          // erase_at on 1 of eat_den yielded elements
+        unsigned ins_pct = 40, ers_pct = 40;   // rest: replacing update
+        uint64_t recreate = 150;        // passes between re-creations of the container
+        double budget = 1.0;
+        Profile() {}
+        Profile( unsigned k0, unsigned k1, unsigned u0, unsigned u1, unsigned ed, unsigned ip, unsigned ep, uint64_t rc, double b )
+            : kmin( k0 ), kmax( k1 ), umin( u0 ), umax( u1 ), eat_den( ed ), ins_pct( ip ), ers_pct( ep ), recreate( rc ), budget( b ) {}
+    };
+
     template <class A, class Rcu>
-    void run_iter( std::string const& name, Kind kind, std::function<A*()> make )
+    void run_iter( std::string const& name, Kind kind, std::function<A*()> make, Profile const& pf = Profile())
     {
         if ( !args().want( name )) return;
         set_variant( name );
         mem_context() = "C19|" + name;
         PropStats& ps = prop( "C19" );
-        uint64_t passes = args().n( 2000, 60000 );
+        uint64_t passes = uint64_t( double( args().n( 2000, 60000 )) * pf.budget );
         uint64_t seed0 = mix64( args().seed ) ^ std::hash<std::string>()( name );
         Rng mrng( seed0 );
-        unsigned U = mrng.range( 1, 3 );
-        unsigned K = mrng.range( 8, 16 );
+        unsigned U = mrng.range( pf.umin, pf.umax );
+        unsigned K = mrng.range( pf.kmin, pf.kmax );
         std::unique_ptr<A> c( make());
         Barrier bar( U + 2 );
         std::atomic<bool> stop{ false }, iter_done{ false };
@@ -121,10 +134,10 @@ namespace {
                     while ( !free_keys.empty() && ( !iter_done.load( std::memory_order_acquire ) || n < 4 ) && n < 300 ) {
                         int key = free_keys[rng.below( unsigned( free_keys.size()))];
                         Op o; o.tid = int( u ); o.b = key; o.r2 = -2; o.a = fresh( u );
-                        unsigned x = rng.below( 10 );
+                        unsigned x = rng.below( 100 );
                         o.inv = tick();
-                        if ( x < 4 ) { o.op = K_INS; o.r = c->ins( key, o.a ) ? 1 : 0; }
-                        else if ( x < 8 ) { o.op = K_ERS; o.r = c->ers( key ) ? 1 : 0; }
+                        if ( x < pf.ins_pct ) { o.op = K_INS; o.r = c->ins( key, o.a ) ? 1 : 0; }
+                        else if ( x < pf.ins_pct + pf.ers_pct ) { o.op = K_ERS; o.r = c->ers( key ) ? 1 : 0; }
                         else { o.op = K_UPD; auto pr = c->ups( key, o.a ); o.r = pr.first ? ( pr.second ? 2 : 1 ) : 0; }
                         o.ret = tick();
                         ulog[u].push_back( o );
@@ -152,7 +165,7 @@ namespace {
                         unsigned hold = rng.chance( 1, 6 ) ? rng.range( 8, 30 ) : rng.range( 0, 3 );
                         for ( unsigned i = 0; i < hold; ++i ) { cds_verif_point( 5, nullptr ); observe( cur, "iterator: current element (held)" ); }
                         ylog.push_back( y );
-                        if ( !stable[unsigned( y.key ) % K] && rng.chance( 1, 12 )) {
+                        if ( !stable[unsigned( y.key ) % K] && rng.chance( 1, pf.eat_den )) {
                             Op o; o.tid = int( U ); o.op = K_UNL; o.a = y.id; o.b = y.key; o.r2 = -2;
                             o.inv = tick();
                             int r = c->erase_at( it );
@@ -170,7 +183,7 @@ namespace {
         } );
 
         std::vector<int64_t> pinned( K, -1 );
-        uint64_t nviol = 0, recreate = 150;
+        uint64_t nviol = 0, recreate = pf.recreate;
         for ( pass = 0; pass < passes && nviol < 5; ++pass ) {
             if ( pass && pass % recreate == 0 ) { c->mech( ps ); c.reset(); c.reset( make()); std::fill( pinned.begin(), pinned.end(), -1 ); }
             for ( auto& l : ulog ) l.clear();
@@ -325,16 +338,24 @@ int main( int argc, char** argv )
         typedef cds::gc::HP HP; typedef cds::gc::DHP DHP;
         { typedef cc::IterableList<HP, Item, il_tr> S; typedef ItemSetA<S, true> A; run_iter<A, void>( "IterableList<HP>", ORDERED_EXACT, []() { return new A; } ); }
         { typedef cc::IterableList<DHP, Item, il_tr> S; typedef ItemSetA<S, true> A; run_iter<A, void>( "IterableList<DHP>", ORDERED_EXACT, []() { return new A; } ); }
+        // hot spots: 3-4 keys, 3 updaters, every second element is erased through the iterator, replacing updates dominate
+        // (an erase_at that meets a replaced element AND a neighbour's link mark needs all three on one node at once)
+        Profile hot( 3, 4, 3, 3, 2, 30, 20, 150, 2.0 );
+        { typedef cc::IterableList<HP, Item, il_tr> S; typedef ItemSetA<S, true> A; run_iter<A, void>( "IterableList<HP>/hot", ORDERED_EXACT, []() { return new A; }, hot ); }
+        { typedef cc::IterableList<DHP, Item, il_tr> S; typedef ItemSetA<S, true> A; run_iter<A, void>( "IterableList<DHP>/hot", ORDERED_EXACT, []() { return new A; }, hot ); }
         { typedef cc::MichaelHashSet<HP, cc::IterableList<HP, Item, il_tr>, mset_tr<HashId>> S; typedef ItemSetA<S, true> A; run_iter<A, void>( "MichaelHashSet<HP,IterableList,4buckets>", UNORDERED_EXACT, []() { return new A( 4, 1 ); } ); }
         { typedef cc::MichaelHashSet<DHP, cc::IterableList<DHP, Item, il_tr>, mset_tr<HashMod2>> S; typedef ItemSetA<S, true> A; run_iter<A, void>( "MichaelHashSet<DHP,IterableList,mod2>", UNORDERED_EXACT, []() { return new A( 4, 1 ); } ); }
         { typedef cc::SplitListSet<HP, Item, split_tr<HashId>> S; typedef ItemSetA<S, true> A; run_iter<A, void>( "SplitListSet<HP,IterableList,dyn>", UNORDERED_EXACT, []() { return new A( 64, 1 ); } ); }
         { typedef cc::SplitListSet<DHP, Item, split_tr<HashMod2>> S; typedef ItemSetA<S, true> A; run_iter<A, void>( "SplitListSet<DHP,IterableList,mod2>", UNORDERED_EXACT, []() { return new A( 16, 1 ); } ); }
-        { typedef cc::FeldmanHashSet<HP, FItem, feld_tr> S; typedef FeldA<S, false, void> A; run_iter<A, void>( "FeldmanHashSet<HP,forward>", UNORDERED_ATLEAST, []() { return new A; } ); }
-        { typedef cc::FeldmanHashSet<DHP, FItem, feld_tr> S; typedef FeldA<S, true, void> A; run_iter<A, void>( "FeldmanHashSet<DHP,reverse>", UNORDERED_ATLEAST, []() { return new A; } ); }
+        // Feldman sets never shrink: array nodes are only created while the keys of a new container are inserted for the first time, so the
+        // container is re-created every 3 passes to keep slot conversions happening under the iterator
+        Profile fresh( 8, 16, 1, 3, 12, 40, 40, 3, 5.0 );   // a Feldman pass costs about 0.5 ms
+        { typedef cc::FeldmanHashSet<HP, FItem, feld_tr> S; typedef FeldA<S, false, void> A; run_iter<A, void>( "FeldmanHashSet<HP,forward>", UNORDERED_ATLEAST, []() { return new A; }, fresh ); }
+        { typedef cc::FeldmanHashSet<DHP, FItem, feld_tr> S; typedef FeldA<S, true, void> A; run_iter<A, void>( "FeldmanHashSet<DHP,reverse>", UNORDERED_ATLEAST, []() { return new A; }, fresh ); }
         g_feld_shift = 12;
-        { typedef cc::FeldmanHashSet<HP, FItem, feld_tr> S; typedef FeldA<S, true, void> A; run_iter<A, void>( "FeldmanHashSet<HP,reverse,shared-prefix>", UNORDERED_ATLEAST, []() { return new A; } ); }
-        { typedef cc::FeldmanHashSet<DHP, FItem, feld_tr> S; typedef FeldA<S, false, void> A; run_iter<A, void>( "FeldmanHashSet<DHP,forward,shared-prefix>", UNORDERED_ATLEAST, []() { return new A; } ); }
-        { typedef cc::FeldmanHashSet<rcu_gpb, FItem, feld_tr> S; typedef FeldA<S, false, rcu_gpb> A; run_iter<A, rcu_gpb>( "FeldmanHashSet<RCU_gpb,forward,shared-prefix>", UNORDERED_ATLEAST, []() { return new A; } ); }
+        { typedef cc::FeldmanHashSet<HP, FItem, feld_tr> S; typedef FeldA<S, true, void> A; run_iter<A, void>( "FeldmanHashSet<HP,reverse,shared-prefix>", UNORDERED_ATLEAST, []() { return new A; }, fresh ); }
+        { typedef cc::FeldmanHashSet<DHP, FItem, feld_tr> S; typedef FeldA<S, false, void> A; run_iter<A, void>( "FeldmanHashSet<DHP,forward,shared-prefix>", UNORDERED_ATLEAST, []() { return new A; }, fresh ); }
+        { typedef cc::FeldmanHashSet<rcu_gpb, FItem, feld_tr> S; typedef FeldA<S, false, rcu_gpb> A; run_iter<A, rcu_gpb>( "FeldmanHashSet<RCU_gpb,forward,shared-prefix>", UNORDERED_ATLEAST, []() { return new A; }, fresh ); }
         g_feld_shift = 0;
     }
     return finish( "iter" );
